@@ -612,9 +612,22 @@ def q2d_line(qp, op, w, u, t, cm0, ams, bms, mode='f'):
     return ' '.join(toks)
 
 
+
+def corpus_cases():
+    import glob
+    import json
+    import os
+    return [json.load(open(path)) for path in sorted(glob.glob(os.path.join(C.VERIF, 'corpus', 'C09', '*.json')))]
+
+
 def correspondence(ctx):
     P, qp, J = _impl()
     rng = ctx.rng
+    for case in corpus_cases():     # minimised inputs that failed on the pinned tree: always run first
+        ctx.case(case['item'], case, nontrivial=True, tag='corpus')
+        ok_, detail_ = pred(case)
+        if not ok_:
+            ctx.pred_fail(case['item'], case, detail_)
     nmax = ctx.scale(10, 12)
     if ctx.widen:
         nmax = 12
